@@ -8,7 +8,7 @@ CLAIMS = {
         'text': 'For every NLRI class compared by index(): what __hash__ hashes is covered by what index() is built from; index() '
                 'separates the ADD-PATH variants by distinct constant markers; every registered NLRI / attribute has its '
                 'pack/unpack/index/json (not the raising stub); renderers are deterministic (no set iteration, id, hash, clock); '
-                'no __eq__ compares a field with itself; the AS_PATH 2-byte detour keeps the path. Not decided: value-level round '
+                'no __eq__ compares a field with itself; the AS_PATH 2-byte detour keeps the path. Also: fields kept beside the packed bytes are part of index(); a class indexed by its complete bytes compares every wire field (5 known findings F38); __deepcopy__ is deep for mutable slots; order-independent sets render sorted. Not decided: value-level round '
                 'trips for every family and attribute.',
         'note': _NOTE,
         'technique': 'MRO-effective member lookup + operand-set comparison of __eq__/index/__hash__, registry completeness, typed iteration checks',
@@ -18,7 +18,7 @@ CLAIMS = {
                 'catch-alls (C14.R1, C17.R1); truncating factories are range-guarded on every parser path (labels, with helper '
                 'functions followed); inventory of every packed integer with its guard-derived bound (overflow raises, never '
                 'wraps); the shared validity check runs for API commands and at encode time (known finding F29: not for the '
-                'configuration file); 4-byte ASNs accepted and AS paths built 4 bytes wide. Not decided: acceptance of every '
+                'configuration file); 4-byte ASNs accepted and AS paths built 4 bytes wide. Also: (high << k) + low assemblies bound the low part below 2^k; numbers handed to masking factories are bounded; FlowSpec lists keep their AND bits as written. Not decided: acceptance of every '
                 'token sequence.',
         'note': _NOTE,
         'technique': 'interval upper bounds from dominating range guards, pack-format width table, def-use into lossy factories, call-site presence checks',
@@ -35,7 +35,7 @@ CLAIMS = {
     'C17': {
         'text': 'After _clear() every exit of _reload (return or escaping exception) passes commit or rollback; nothing rolls back '
                 'or reports failure after the commit; replace_reload compares attributes and next hop, forces re-announcement, '
-                'and withdraws leftovers unconditionally; Reactor.reload touches peers only after success. Not decided: equality '
+                'and withdraws leftovers unconditionally; Reactor.reload touches peers only after success. Also: Neighbor.__eq__ compares everything the OPEN is built from. Not decided: equality '
                 'of peer tables for arbitrary configuration pairs.',
         'note': _NOTE,
         'technique': 'must-pass-through on the CFG with exception edges, reachability after commit, def-use atoms of the re-announce decision',
@@ -44,7 +44,7 @@ CLAIMS = {
         'text': 'Memoised decoding: each early return of class-level state in a decode-reachable function that computes with '
                 '`negotiated` must make the hit depend on the session (or be provably off); the cached collection never holds a key '
                 'its consumer pops; no decode-reachable rewrite of a class attribute of a multiply-registered class; negotiated is '
-                'read-only while decoding; singletons not mutated (thorough). One known finding (F18). Not decided: equality of '
+                'read-only while decoding; singletons not mutated (thorough). One known finding (F18). Also: a memo on a shared attribute object does not depend on call arguments; identity-keyed class tables only grow; memo key and value move together. Not decided: equality of '
                 'outputs over message sequences.',
         'note': _NOTE,
         'technique': 'runtime-class-write inventory with mypy types, guard atom analysis, registry multiplicity, decode reachability',
@@ -53,7 +53,7 @@ CLAIMS = {
         'text': 'The rise/fall automaton of one() is extracted by symbolic evaluation over the complete finite predicate space (96 '
                 'cells) and compared with the reference automaton; what exabgp() writes per state; SIGTERM / KeyboardInterrupt '
                 'withdraw unconditionally; every emitted keyword is in the static route parser and the prefix is a v6 dispatch '
-                'path. Not decided: timing, the external check command.',
+                'path. Also: the community announced per target x withdraw_on_down x community options. Not decided: timing, the external check command.',
         'note': _NOTE,
         'technique': 'decision-table extraction by exhaustive symbolic evaluation of the if-tree, writer/reader grammar table agreement',
     },
@@ -63,7 +63,7 @@ CLAIMS = {
                 'or sanitised (json.dumps/_string/hexstring); same for the Text/V4Text encoders with oneline/hexstring; the '
                 'attribute key table is injective over renderable entries; everything written is ASCII (json.dumps keeps '
                 'ensure_ascii, oneline confines to ASCII); no newline in JSON templates, envelope keys; every message kind has '
-                'an emitter in each encoder class. One known finding (F9). Not decided: parseability of every nested fragment.',
+                'an emitter in each encoder class. One known finding (F9). Also: NO_GENERATION pseudo-attributes are rendered only for NEXT_HOP on request (evaluated over the cases); unsent bytes go back to the front of the write queue. Not decided: parseability of every nested fragment.',
         'note': _NOTE,
         'technique': 'field-sensitive taint from decode sources + safe-string inference over f-string/format/% interpolations with mypy types, table injectivity, registry exhaustiveness',
     },
@@ -80,16 +80,16 @@ CLAIMS = {
         'text': 'Announce/withdraw label flow from the UPDATE sections and MP attributes to the lists, the constructor parameters, '
                 'the JSON keys and the Adj-RIB-In calls; decoder Action and ADD-PATH direction (receive) per section; twin '
                 'handlers identical in normal form; validator and lazy parser of MP_REACH walk the same offsets; next hop '
-                'attribution (first address); AS_PATH/AS4_PATH merge slices and packing width. Not decided: field-by-field '
+                'attribution (first address); AS_PATH/AS4_PATH merge slices and packing width. Also: the slices of the AS_PATH/AS4_PATH merge are bounded by lengths of the same segment kind; a block carrying MP attributes never enters the one-entry block cache (shared with C19). Not decided: field-by-field '
                 'equality with a reference decoder.',
         'note': _NOTE,
-        'technique': 'label-flow (taint-style) def-use tracking, sibling normal-form comparison, offset-sequence agreement, constant folding',
+        'technique': 'flow-sensitive label propagation and reaching definitions, label-flow (taint-style) def-use tracking, sibling normal-form comparison, offset-sequence agreement, constant folding',
     },
     'C09': {
         'text': 'Budget expression as a linear form (msg_size - 23 - len(attr)); MP generator budgets subtract every buffer '
                 'concatenated into the same yield; length predictors agree with writers on the 255 switch; buffers grow only '
                 'under the room test; the prefix that triggers a split starts the next buffer; no room means no message. Not '
-                'decided: the arithmetic at the 255/256 and 4096/65535 boundaries for all inputs.',
+                'decided: the arithmetic at the 255/256 and 4096/65535 boundaries for all inputs. Also: a bare NLRI goes into the NLRI field only after looking at the route next hop; a buffer that went out is emptied before the next message that includes it.',
         'note': _NOTE,
         'technique': 'linear-form normalisation, yield/budget name-set comparison, guard extraction, statement-order flow after yields',
     },
@@ -106,7 +106,7 @@ CLAIMS = {
                 'that answer for it) gives exactly one terminal answer on every CFG path, exceptions included; RIB effects come '
                 'after a non-empty parse result; the neighbour set of every effect derives from the selector-matched peers; '
                 'an empty selector match is not widened to all peers; every selector term is tested; both line readers keep '
-                'the unterminated tail and the queues are FIFO. Not decided: arbitrary chunkings at run time, group mode semantics.',
+                'the unterminated tail and the queues are FIFO. Also: selector terms match as whole terms; received_async hands over one command per call. Not decided: arbitrary chunkings at run time, group mode semantics.',
         'note': _NOTE,
         'technique': 'path-sensitive count lattice {0,1,>=2} over handler CFGs with interprocedural summaries, def-use provenance of the peer set, sibling shape checks',
     },
@@ -115,7 +115,7 @@ CLAIMS = {
                 'from its own attribute group, keyed through _new_nlri); every queueing path reaches the matching cache '
                 'update; updates() emits refresh < withdraw < announce; every queue is detached before the first yield and '
                 'never touched through self across a suspension; in_cache compares attributes and next hop; who writes '
-                'the tables (thorough). One known finding (F3) is listed. Not decided: convergence over all histories.',
+                'the tables (thorough). One known finding (F3) is listed. Also: one way into each queue (single writer), nothing emitted from one queue is filtered by another. Not decided: convergence over all histories.',
         'note': _NOTE,
         'technique': 'alias-aware def-use rules, CFG reachability/dominance between yield groups, must-pass-through on queueing paths',
     },
@@ -124,7 +124,7 @@ CLAIMS = {
                 'members of both lists; hold time = min; ADD-PATH send/receive formulas with SEND=2/RECEIVE=1 and the '
                 'IN/OUT mapping; both AS numbers get the AS_TRANS fix-up from their own OPEN; refusal subcodes per guard; '
                 'pack_capabilities and Capabilities.unpack describe the same standard and RFC 9072 layouts; each capability '
-                'is advertised under its own configuration flag. Not decided: equality with an independent computation for '
+                'is advertised under its own configuration flag. Also: the local AS never depends on what the peer announced; the iBGP test of the router-id collision uses the negotiated peer AS. Not decided: equality with an independent computation for '
                 'arbitrary OPEN pairs.',
         'note': _NOTE,
         'technique': 'guard/term extraction into (side, capability) sets compared with an RFC oracle table, def-use, constant folding, writer/reader layout comparison',
@@ -134,7 +134,7 @@ CLAIMS = {
                 'functions reachable from the message decoders (registry dispatch recognised), every `while <buffer>` '
                 'decode loop shortens its buffer on every path (lower bounds folded, early-exit guards used), explicit '
                 'non-Notify raises reachable from the decoders are limited to the triaged defensive guards (a new one '
-                'fires), the last-resort barriers exist, unknown attributes are kept/ignored not refused. Not decided: '
+                'fires), the last-resort barriers exist, unknown attributes are kept/ignored not refused. Also: the text of every Notify is ASCII whatever the peer sent (safe-string inference, class-hierarchy dive into __str__); no search of a message-built list inside a loop on the decode path; class-table lookups with a message-derived key are guarded. Not decided: '
                 'implicit IndexError/struct.error on every read, the linear-time bound.',
         'note': _NOTE,
         'technique': 'resolved call graph + SCC, syntax-directed loop-progress walk with interval lower bounds, interprocedural explicit exception flow with a frozen triage table',
@@ -162,7 +162,7 @@ CLAIMS = {
         'text': 'Every literal NOTIFICATION (code, subcode) in the tree (about 250 sites) is in the repository table, itself '
                 'within the RFC table; error class by place; a received NOTIFICATION is never answered; in the except '
                 'Notify arm the NOTIFICATION is written at most once, then reset, nothing after (path-sensitive count); '
-                'every registered message type is handled or refused in ESTABLISHED. Not decided: the bytes written in '
+                'every registered message type is handled or refused in ESTABLISHED. Also: a NOTIFICATION is written only from the except Notify arm; framing errors are handed back with the transport open; every refusal generator that is built is iterated or scheduled. Not decided: the bytes written in '
                 'every state/fault combination.',
         'note': _NOTE,
         'technique': 'constant folding of all Notify sites, explicit exception flow, path-sensitive count lattice over the handler CFG, registry exhaustiveness',
@@ -180,7 +180,7 @@ CLAIMS = {
                 'marker is consumed before the announce sinks, the attribute walk checks the declared length against '
                 'what is left, every registered attribute has a disposition (flag folded through the MRO or only '
                 'Notify(3,x) escapes), both failure arms of the walk honour both flags, discard continues the walk, '
-                'the RFC 7606 section 7 class table. Not decided: which malformed values each decoder recognises.',
+                'the RFC 7606 section 7 class table. Also: a malformed block neither enters the block memo nor leaves its key pointing at an older collection. Not decided: which malformed values each decoder recognises.',
         'note': _NOTE,
         'technique': 'AST pattern + resolved-callee rules, constant folding of class flags through the MRO, interprocedural explicit exception flow',
     },
